@@ -11,7 +11,7 @@
 (*   FramingNotRetried  once the server has sent a deterministically malformed response to request r (STaint why =    *)
 (*                      framing) no further attempt of r is observed (not judged when the server itself was late).      *)
 (*   NoReuse            after STaint{c} (failure, close signal, surplus bytes, close-delimited body) no request         *)
-(*                      arrives on c.                                                                                  *)
+(*                      arrives on c (bytes that were already pending at the taint, flag pre, were sent before it).    *)
 (*   TimeBound          every call returns within (budget+1)*(connectTimeout + 2*requestTimeout) + back-off + slack.   *)
 (* Choices where the statement is ambiguous (weaker reading): a method token that RFC 9110 does not register (e.g.     *)
 (* lower-case "get") may be treated as either class: (wire <= 1) \/ (attempts <= budget + 1).                          *)
@@ -49,7 +49,7 @@ EvCConn == /\ IsEv("CConn")
 EvSReq == /\ IsEv("SReq")
           /\ LET c == Ev.c  r == Ev.r
                  sameAttempt == KnownC(c) /\ cn[c].virgin /\ cn[c].by = r /\ r > 0   \* the attempt that called connect()
-             IN /\ cn' = IF KnownC(c) THEN [cn EXCEPT ![c] = [@ EXCEPT !.virgin = FALSE, !.reused = @ \/ cn[c].taint]]
+             IN /\ cn' = IF KnownC(c) THEN [cn EXCEPT ![c] = [@ EXCEPT !.virgin = FALSE, !.reused = @ \/ (cn[c].taint /\ ~Fld("pre", FALSE))]]
                                       ELSE cn
                 /\ IF ~Known(r) THEN UNCHANGED rq
                    ELSE IF sameAttempt THEN rq' = [rq EXCEPT ![r] = [@ EXCEPT !.wire = @ + 1]]
